@@ -8,8 +8,11 @@ from selftest import runner
 sel = sys.argv[1:]
 cases = [c for c in runner.load_cases("/repo") if c["id"].startswith("refactor:") and (not sel or any(c["id"].startswith("refactor:" + s) for s in sel))]
 work = [("/repo", c, p) for c in cases for p in c["props"]]
-with ProcessPoolExecutor(max_workers=int(os.environ.get("JOBS", "12"))) as ex:
-    res = list(ex.map(runner.run_case, work, chunksize=4))
+import fcntl, tempfile
+with open(os.path.join(tempfile.gettempdir(), "sa-selftest.lock"), "w") as lk:
+    fcntl.flock(lk, fcntl.LOCK_EX)
+    with ProcessPoolExecutor(max_workers=int(os.environ.get("JOBS", "12"))) as ex:
+        res = list(ex.map(runner.run_case, work, chunksize=4))
 bad = [r for r in res if r["status"] != "silent"]
 for r in bad:
     print(r["id"], r["prop"], r["status"], r.get("rules"), r.get("errors"), r.get("first") or r.get("detail"))
